@@ -131,6 +131,7 @@ def parseOp (s : String) : Option Op :=
   | ["apair", a, b, f] => do pure (.aForEachPair (← parseVar a) (← parseVar b) (← parseFn2 f))
   | ["mfe", m, f] => do pure (.mForEachF (← parseVar m) (← parseFn2 f))
   | ["deq", a, b] => do pure (.deq (← parseVar a) (← parseVar b))
+  | ["asort", a] => (parseVar a).map .aSort
   | ["call", f, k, fst] => do pure (.call (← parseVar f) (← parseVar k) (fst == "1"))
   | ["call2", t, k1, k2] => do pure (.call2 (← parseVar t) (← parseVar k1) (← parseVar k2))
   | ["seq", l] => (parseList parseArg l).map .seq
